@@ -245,6 +245,29 @@ func c16Case(w *core.Worker, i int) {
 			compared++
 			c.fetched = true
 			c.idx = len(c.rows)
+		case op == 16:
+			// a cursor of the same name declared in a nested block: operations inside the block belong to that cursor only,
+			// the outer cursor (declared or not, open or not) keeps its snapshot and position
+			var res core.ExecResult
+			switch r.Intn(3) {
+			case 0: // inner cursor never opened: FETCH must fail
+				res = exec(fmt.Sprintf("IF 1 = 1 THEN DECLARE %s CURSOR FOR SELECT 'inner', 'row'; FETCH %s INTO @a, @b; END IF;", cn, cn))
+				expectErr(res, true, "closed (the one declared in the block)")
+			case 1: // opened, fetched, closed, fetched again: the second FETCH must fail after the first returned the inner row
+				res = exec(fmt.Sprintf("IF 1 = 1 THEN DECLARE %s CURSOR FOR SELECT 'inner', 'row'; OPEN %s; FETCH %s INTO @a, @b; CLOSE %s; FETCH %s INTO @a, @b; END IF;", cn, cn, cn, cn, cn))
+				if expectErr(res, true, "closed (the one declared in the block)") {
+					if got := s.Exec("SELECT @a, @b;"); got.Err == nil && len(got.Views) == 1 && (got.Views[0].Rows[0][0].S != "inner" || got.Views[0].Rows[0][1].S != "row") {
+						viol("shadowed-cursor", fmt.Sprintf("the variables hold %v after fetching the block's own cursor once", valsToStrs(got.Views[0].Rows[0])))
+					}
+				}
+			default: // a loop over the inner cursor
+				res = exec(fmt.Sprintf("WHILE @a < 1 DO DECLARE %s CURSOR FOR SELECT 'inner', 'row' UNION ALL SELECT 'inner2', 'row2'; OPEN %s; WHILE @a, @b IN %s DO PRINT @b; END WHILE; CLOSE %s; @a := 1; END WHILE;", cn, cn, cn, cn))
+				// @a may hold text or NULL: the comparison is then not TRUE and the loop body does not run; both outcomes leave the outer cursor alone
+				if res.Err != nil {
+					viol("unexpected-error", fmt.Sprint(res.Err))
+				}
+			}
+			w.Count("nested_block_cursor_probes", 1)
 		case op >= 20 && c.open:
 			// extra weight on plain fetches while a cursor is open
 			res := exec(fmt.Sprintf("FETCH %s INTO @a, @b;", cn))
